@@ -182,10 +182,21 @@ func readFileImpl(g *GT, file []byte, cbFail int, buffered bool) (res fileRes) {
 			rd = bufio.NewReaderSize(iotest.OneByteReader(bytes.NewReader(file)), 4096)
 		}
 	} else {
-		if readerRotation%2 == 0 {
+		switch readerRotation % 4 {
+		case 0:
 			rd = bytes.NewReader(file)
-		} else {
+		case 1:
 			rd = bytes.NewBuffer(append([]byte{}, file...))
+		case 2:
+			// a reader that hands out its last bytes together with io.EOF (the contract allows it)
+			rd = &c07DataEOFReader{data: file, chunk: 1 + readerRotation%7}
+		default:
+			// a seekable reader the caller has already advanced past an envelope of its own
+			// (another container file, as it happens): ReadFile starts where the reader stands
+			prefix := append([]byte("envelope:"), file[:len(file)/2]...)
+			br := bytes.NewReader(append(prefix, file...))
+			br.Seek(int64(len(prefix)), io.SeekStart)
+			rd = br
 		}
 	}
 	// out is a struct value or (with the buffered reader) a pointer to one: the pointer
